@@ -346,13 +346,17 @@ theorem parse_export_cpoint (C : Codec K) (hC : C.LawfulOn R) (ys : Bool) (pp : 
   simp [parsePointAttrs, exportCPoint, pvar, PAttr.role, mirrorCPointIf, mirrorCPoint, sgn, visSigned_x, visSigned_y, visSigned_z,
     hr, hn, hne, hid, bind, Except.bind, pure, Except.pure, *]
 
+/-- a coordinate observation of a point that already has those coordinate groups changes nothing in PointData
+    (6848bc2a: the guarded setters; on a tree without the guards `observedKeepsXY` / `observedKeepsZ` /
+    `coordsPointObserved` are false and this fails) -/
 theorem apply_noop (id : String) (p : Point K) (c : CPoint K) (h : agrees p c) :
-    (⟨id, c.xy, c.z, [], []⟩ : PointUpd K).apply p = p := by
+    (⟨id, c.xy, c.z, [], []⟩ : PointUpd K).applyObs p = p := by
   obtain ⟨pid, pxy, pz, s1, s2⟩ := p
   obtain ⟨cid, cxy, cz⟩ := c
   obtain ⟨h1, h2⟩ := h
   simp only at h1 h2
-  cases cxy <;> cases cz <;> simp_all [PointUpd.apply, adjBeforeFix]
+  cases cxy <;> cases cz <;> cases pxy <;> cases pz <;>
+    simp_all [PointUpd.applyObs, adjBeforeFix, coordsPointObserved, observedKeepsXY, observedKeepsZ]
 
 theorem parse_export_cpoints (C : Codec K) (hC : C.LawfulOn R) (ys : Bool) (ps : List (Point K)) (pts : List (CPoint K))
     (hw : ∀ c ∈ pts, c.WF R)
@@ -365,7 +369,7 @@ theorem parse_export_cpoints (C : Codec K) (hC : C.LawfulOn R) (ys : Bool) (ps :
     have hg := hag c List.mem_cons_self
     obtain ⟨pp', hrest⟩ := ih (fun c' h' => hw c' (List.mem_cons_of_mem _ h')) (fun c' h' => hag c' (List.mem_cons_of_mem _ h')) c.id
     refine ⟨pp', ?_⟩
-    have hup : upsert ps c.id (⟨c.id, (mirrorCPointIf C ys c).xy, (mirrorCPointIf C ys c).z, [], []⟩ : PointUpd K).apply = ps :=
+    have hup : upsert ps c.id (⟨c.id, (mirrorCPointIf C ys c).xy, (mirrorCPointIf C ys c).z, [], []⟩ : PointUpd K).applyObs = ps :=
       upsert_noop ps c.id _ hg.1 (fun p hp he => apply_noop c.id p _ (hg.2 p hp he))
     have hsome : ((mirrorCPointIf C ys c).xy.isNone && (mirrorCPointIf C ys c).z.isNone) = false := by
       obtain ⟨cid, cxy, cz⟩ := c
